@@ -19,6 +19,10 @@ from . import lexrules
 CLS = 'bridgepoint.oal:OALParser'
 
 
+# ply.yacc.LRParser.parse(self, input=None, lexer=None, debug=False, tracking=False, tokenfunc=None)
+PLY_PARSE_PARAMS = ('input', 'lexer', 'debug', 'tracking', 'tokenfunc')
+
+
 def run(ctx):
     ctx.guard(lexrules.time_rule, ctx, 'C13-TIME', CLS, floor=30)
     ctx.guard(total, ctx)
@@ -88,6 +92,7 @@ def total(ctx):
     for n in ast.walk(ti):
         if isinstance(n, ast.Call) and call_attr(n) == 'parse':
             kw = {k.arg: k.value for k in n.keywords}
+            kw.update(dict(zip(PLY_PARSE_PARAMS, n.args)))
             if 'tracking' in kw and isinstance(kw['tracking'], ast.Constant) and kw['tracking'].value:
                 ok = True
     r.check(ok, 'text_input parses with tracking enabled', ti, construct=CLS + '.text_input', key='tracking',
@@ -102,7 +107,7 @@ def total(ctx):
             for k in n.keywords:
                 if k.arg == 'input':
                     fed.append(resolve_locals(tin, k.value, pure_only=False))
-            if call_attr(n) == 'input' and n.args:
+            if n.args and not isinstance(n.args[0], ast.Starred):       # ply: LRParser.parse(input, lexer, ...) / Lexer.input(s)
                 fed.append(resolve_locals(tin, n.args[0], pure_only=False))
     r.check(bool(fed) and all(isinstance(x, ast.Name) and x.id == tpar for x in fed), 'text_input hands its text to the parser unmodified', tin,
             construct=CLS + '.text_input', key='input-unmodified',
